@@ -19,7 +19,8 @@ RULE = ('cases 0..511: the BAD-LENGTH MATRIX (seed independent): a dynamic array
         'routines called from the deepest frame - also "lean" functions whose deepest call is write(int) next '
         'to a live stack array, and "frame shape" functions built from a seeded sequence of deep calls, array '
         'literals, dynamic arrays, byte/word locals and nested blocks that are all read back at the end - '
-        'compound element assignment; programs that compute with uninitialised int/byte/bool elements '
+        'compound element assignment; "nested index" programs whose index expressions contain further lookups, .length '
+        'and casts on both sides of stores; programs that compute with uninitialised int/byte/bool elements '
         '(judged by the monitors only, under several poisons and stack sizes); every 4th case a time-travel '
         'program; every 5th case with a planted index/division fault) is first run with a generous stack; '
         'then the stack-size axis is ENUMERATED: every size 0..N+2 words where N is the first size that '
@@ -242,6 +243,68 @@ def uninit_prog(rnd, W):
     return prog([], [dump_func('int'), dirty, func('empty', '@is_you', [('int', 'q')], *body)]), [str(rnd.randrange(-5, 50))]
 
 
+def nested_index_prog(rnd, W):
+    """Index expressions that themselves contain lookups in other arrays, strings, `.length` and casts, nested two
+    or three deep, on both sides of stores: every register the lowering uses is busy while a pointer or a checked
+    index is still needed.  Runs end in WIN or in an exact out_of_bounds, both compared with the reference."""
+    L = 4
+
+    def T(d):
+        c = rnd.randrange(12) if d > 0 else rnd.randrange(3)
+        if c == 0:
+            return I(rnd.randrange(0, 4))
+        if c == 1:
+            return V('i')
+        if c == 2:
+            return V('j')
+        if c == 3:
+            return idx('ia', T(d - 1))
+        if c == 4:
+            return is_(idx('ba', T(d - 1)), 'int')
+        if c == 5:
+            return is_(idx('fl', T(d - 1)), 'int')
+        if c == 6:
+            return ln(idx('ws', T(d - 1)))
+        if c == 7:
+            return is_(idx(idx('ws', T(d - 1)), T(d - 1)), 'int')
+        if c == 8:
+            return bin_('%', T(d - 1), I(rnd.choice((2, 3, 4))))
+        if c == 9:
+            return bin_('%', bin_('+', T(d - 1), T(d - 1)), I(rnd.choice((3, 4))))
+        if c == 10:
+            return bin_('-', ln(rnd.choice(('ia', 'ba', 'fl', 'ws', 's'))), T(d - 1))
+        return is_(idx('s', T(d - 1)), 'int')
+    body = [
+        decl(arr('int'), 'ia', ('arr', (I(2), I(0), V('q'), I(3))), True),
+        decl(arr('byte'), 'ba', ('arr', (I(1), I(2), I(0), is_(V('q'), 'byte'))), True),
+        decl(arr('bool'), 'fl', ('arr', (B(True), B(False), bin_('==', V('q'), I(1)), B(True))), True),
+        decl(arr('string', True), 'ws', ('arr', (S('alpha'), S('be'), S('gam'), S('d'))), True),
+        decl('string', 's', S('hello')), decl('int', 'i', bin_('%', V('q'), I(4))), decl('int', 'j', I(rnd.randrange(0, 4))),
+    ]
+    for _ in range(rnd.randrange(3, 7)):
+        c = rnd.randrange(8)
+        d = rnd.choice((1, 2, 2, 3))
+        if c == 0:
+            body += [write(idx(idx('ws', T(d)), T(d))), write(C(' '))]
+        elif c == 1:
+            body += [write(idx('ia', T(d))), write(C(' '))]
+        elif c == 2:
+            body.append(setv(idx('fl', T(d)), ('un', 'not', idx('fl', T(d - 1)))))
+        elif c == 3:
+            body.append(setv(idx('ia', T(d)), bin_('%', T(d), I(4))))
+        elif c == 4:
+            body.append(aug(rnd.choice('+-'), idx('ba', T(d)), is_(bin_('%', T(d - 1), I(3)), 'byte')))
+        elif c == 5:
+            body.append(aug('+', idx('ia', T(d)), T(d - 1)))
+        elif c == 6:
+            body += [write(bin_(rnd.choice(('+', '*', '-')), T(d), T(d))), write(C(' '))]
+        else:
+            body.append(setv('i', bin_('%', T(d), I(4))))
+    body += [ex(call('dump', V('ia'))), ex(call('dump', V('ba'))), ex(call('dump', V('fl')))]
+    fs = [('func', 'empty', 'dump', ((('arrt', el, True), 'a'),), dump_func(el)[4]) for el in ('int', 'byte', 'bool')]
+    return prog([], fs + [func('empty', '@is_you', [('int', 'q')], *body)]), [str(rnd.randrange(0, 4))]
+
+
 def make_case(seed, idx):
     rnd = case_rng(seed, ID, idx)
     W = rnd.choice((2, 2, 3, 4, 8))
@@ -263,6 +326,9 @@ def make_case(seed, idx):
     elif idx % 7 == 4 and idx % 2 == 0:
         p, argv = uninit_prog(rnd, W)
         kind = 'uninit'
+    elif idx % 7 == 4 or idx % 7 == 3 and idx % 2 == 0:
+        p, argv = nested_index_prog(rnd, W)
+        kind = 'nested'
     else:
         cfg = heavy_cfg(rnd)
         cfg['W'] = W
